@@ -79,6 +79,12 @@ def c08_case(draw):
             if draw(st.booleans()):
                 for c in draw(st.lists(st.sampled_from(cols), max_size=2, unique=True)):
                     rename[c] = draw(st.sampled_from(KEYS + ["r1"]))
+            if len(cols) >= 2 and draw(st.integers(0, 3)) == 0:
+                a, b = draw(st.permutations(cols))[:2]
+                # a simultaneous swap, or a chain a->b, b->c: both valid (no two columns end up with one name)
+                rename = {a: b, b: a} if draw(st.booleans()) else {a: b, b: draw(st.sampled_from(["r1", "r2"]))}
+                if draw(st.booleans()):
+                    rename = dict(reversed(list(rename.items())))
             src = {"format": f["format"], "path": f["name"], "select": select, "rename": rename,
                    "mode": draw(st.sampled_from(["by_position", "by_position", "combinatorial", None]))}
             if draw(st.integers(0, 14)) == 0:
@@ -384,12 +390,23 @@ def promptness(col: Collector, shapes: List[Tuple[int, int, int, str]]) -> None:
     from semantiva.exceptions.pipeline_exceptions import RunSpaceMaxRunsExceededError
     from semantiva.execution.run_space import expand_run_space
 
+    from semantiva.configurations.schema import RunSource
+
+    tdir = tempfile.mkdtemp(prefix="c08p-")
     for nkeys, nvals, cap, layout in shapes:
         ctx = {f"k{i}": list(range(nvals)) for i in range(nkeys)}
         if layout == "one_block":
             blocks = [RunBlock(mode="combinatorial", context=ctx)]
-        else:
+        elif layout == "block_per_key":
             blocks = [RunBlock(mode="combinatorial", context={k: v}) for k, v in ctx.items()]
+        else:
+            # the product comes from a columnar source file expanded combinatorially, inside a block of either mode,
+            # optionally next to inline context keys
+            src_path = os.path.join(tdir, f"cols_{nkeys}_{nvals}.json")
+            json.dump(ctx, open(src_path, "w"))
+            block_mode = "by_position" if layout.startswith("by_position") else "combinatorial"
+            inline = {"inline": [0]} if layout.endswith("+context") and block_mode == "combinatorial" else {}
+            blocks = [RunBlock(mode=block_mode, context=inline, source=RunSource(format="json", path=src_path, mode="combinatorial"))]
         spec = RunSpaceV1Config(combine="combinatorial", max_runs=cap, blocks=blocks)
         product = nvals ** nkeys
         tracemalloc.start()
@@ -414,14 +431,18 @@ def promptness(col: Collector, shapes: List[Tuple[int, int, int, str]]) -> None:
         if peak > 0.05 * cost or peak > 600_000:
             col.add("expansion_materialised_before_cap_check", {"layout": layout}, case,
                     {"peak_bytes": peak, "materialisation_cost_bytes": cost, "product": product}, "peak < 5% of cost and < 600 kB")
+    shutil.rmtree(tdir, ignore_errors=True)
 
 
 def plan(tier: str, seed: int, scale: float = 1.0) -> List[Dict[str, Any]]:
     nshards, n = (16, 600) if tier == "quick" else (64, 2000)
     specs: List[Dict[str, Any]] = [{"kind": "gen", "seed": seed * 5003 + i, "n": max(20, int(n * scale)), "timeout": 900} for i in range(nshards)]
-    shapes = [[4, 11, 10, "one_block"], [5, 8, 1000, "one_block"], [3, 30, 0, "one_block"], [4, 12, 10, "block_per_key"], [2, 200, 50, "one_block"]]
+    shapes = [[4, 11, 10, "one_block"], [5, 8, 1000, "one_block"], [3, 30, 0, "one_block"], [4, 12, 10, "block_per_key"], [2, 200, 50, "one_block"],
+              [4, 11, 10, "by_position_block_combinatorial_source"], [3, 30, 100, "combinatorial_block_combinatorial_source"],
+              [4, 10, 5, "combinatorial_block_combinatorial_source+context"]]
     if tier == "thorough":
-        shapes += [[4, 16, 100, "one_block"], [5, 10, 999, "block_per_key"], [6, 7, 1, "one_block"], [3, 45, 1000, "one_block"]]
+        shapes += [[4, 16, 100, "one_block"], [5, 10, 999, "block_per_key"], [6, 7, 1, "one_block"], [3, 45, 1000, "one_block"],
+                   [5, 9, 100, "by_position_block_combinatorial_source"], [4, 16, 1000, "combinatorial_block_combinatorial_source+context"]]
     specs.append({"kind": "prompt", "shapes": shapes, "timeout": 900})
     return specs
 
@@ -474,4 +495,4 @@ def valid(case: Any) -> bool:
 def label_requirements(tier: str) -> Dict[str, Any]:
     return {"format:csv": 0.03, "format:json": 0.03, "format:yaml": 0.03, "format:ndjson": 0.03, "reject:config": 0.03,
             "reject:maxruns": 0.03, "expands": 0.2, "select": 0.05, "rename": 0.05, "entry:yaml": 0.3, "entry:api": 0.3,
-            "promptness": 4, "blocks:0": 0.03, "blocks:3": 0.05}
+            "promptness": 4, "blocks:0": 0.015, "blocks:3": 0.05}
